@@ -11,7 +11,8 @@ def run(pid, tier, replay=None):
     sc = ck.scratch
     q = tier == "quick"
     ck.assumptions += [
-        "the Newton iteration, Euclid's algorithm and the reversal are width-parametric: TLC checks them for every input of word widths 8 and 12 (16 thorough); "
+        "both variants of the integer roots are built and run (Newton with the bit-scan intrinsic; the digit-by-digit loop with the intrinsic macros undefined in a scratch copy of math.c)",
+        "the Newton iteration, the digit-by-digit loop, Euclid's algorithm and the reversal are width-parametric: TLC checks them for every input of word widths 8 and 12 (16 thorough); "
         "the 32/64-bit instances are judged on recorded results by the defining predicates evaluated by TLC with exact byte-limb arithmetic",
         "the sweep over 2^22 (2^32 thorough) arguments of a_u32_sqrt and the sampled a_u64_sqrt arguments are native loops of the defining predicate r*r <= x < (r+1)^2 (conformance extension, not model checking)",
     ]
@@ -38,7 +39,30 @@ def run(pid, tier, replay=None):
         ck.violation("sweep:sqrt32", {"what": "a_u32_sqrt(x) is not floor(sqrt(x))", "first_x": summ["sweep32_first_bad"], "count": summ["sweep32_bad"]})
     if summ["sweep64_bad"]:
         ck.violation("sweep:sqrt64", {"what": "a_u64_sqrt(x) is not floor(sqrt(x))", "first_x_hi": summ["sweep64_first_bad_hi"], "first_x_lo": summ["sweep64_first_bad_lo"], "count": summ["sweep64_bad"]})
-    files = sorted(glob.glob(sc.path("g-*.ndjson")))
+    # the other variant of the two roots: the digit-by-digit loop that is compiled where no bit-scan intrinsic exists.  A
+    # scratch copy of math.c gets the two intrinsic macros undefined in front of the functions; same harness, same judgement
+    msrc = open(vlib.repo_src("math.c")[0], errors="replace").read()
+    m2, n1 = re.subn(r"^(a_u16 a_u32_sqrt\(a_u32 x\))", r"#undef A_U32_BSR\n\1", msrc, flags=re.M)
+    m2, n2 = re.subn(r"^(a_u32 a_u64_sqrt\(a_u64 x\))", r"#undef A_U64_BSR\n\1", m2, flags=re.M)
+    if n1 == 1 and n2 == 1 and "Digit-by-digit" in msrc:
+        alt = sc.path("math_digit.c")
+        with open(alt, "w") as fh:
+            fh.write(m2)
+        exe2 = vlib.cc_build(sc.path("intmath_d"), [os.path.join(vlib.HARNESS, "intmath_h.c"), alt] + vlib.repo_src("a.c"), sc, opt="-O2", sanitize=False)
+        r2 = vlib.run_harness([exe2, str(ck.seed + 7), sc.path("d"), "4", str(nrand // 2), "20" if q else "26"], timeout=1800)
+        mm = re.search(r"^SUMMARY (\{.*\})$", r2.stdout or "", re.M)
+        if r2.returncode != 0 or not mm:
+            raise Broken("harness (digit-by-digit build) failed rc=%s: %s" % (r2.returncode, (r2.stderr or "")[-1500:]))
+        s2 = json.loads(mm.group(1))
+        ck.part("native_sweep_digit_by_digit_build", **s2)
+        if s2["sweep32_bad"]:
+            ck.violation("sweep:sqrt32:digit-by-digit", {"what": "a_u32_sqrt(x) (digit-by-digit build) is not floor(sqrt(x))", "first_x": s2["sweep32_first_bad"], "count": s2["sweep32_bad"]})
+        if s2["sweep64_bad"]:
+            ck.violation("sweep:sqrt64:digit-by-digit", {"what": "a_u64_sqrt(x) (digit-by-digit build) is not floor(sqrt(x))", "first_x_hi": s2["sweep64_first_bad_hi"], "first_x_lo": s2["sweep64_first_bad_lo"], "count": s2["sweep64_bad"]})
+        summ["events"] += s2["events"]; summ["sweep32"] += s2["sweep32"]; summ["sweep64"] += s2["sweep64"]
+    else:
+        ck.part("native_sweep_digit_by_digit_build", note="the source no longer has the two variants in the expected shape; not built")
+    files = sorted(glob.glob(sc.path("g-*.ndjson")) + glob.glob(sc.path("d-*.ndjson")))
     nev, bad = vlib.validate_collect(os.path.join(SPECDIR, "IntMathTrace.tla"), os.path.join(SPECDIR, "IntMathTrace.cfg"), files, sc)
     for f, idx, ev in bad:
         ck.violation("trace:%s%s" % (ev.get("f"), ev.get("w", "")), {"what": "TLC rejected the recorded result: it does not satisfy the definition", "event": ev})
